@@ -70,6 +70,17 @@ def impl_eval(case):
                 why = (f'decoded PDS set differs: missing {sorted(set(exp_pds) - set(got_pds))[:4]} extra '
                        f'{sorted(set(got_pds) - set(exp_pds))[:4]} changed '
                        f'{[k for k in exp_pds if k in got_pds and got_pds[k] != exp_pds[k]][:4]}')
+    if why is None and len(pds) >= 2:
+        # what encoding does to the CALLER's dictionary: it may add the carrier elements it built (it does), but every entry the
+        # caller put there is still there, unchanged — so that the dictionary can be changed and encoded again
+        same = dict(msg)
+        try:
+            iso8583.dumps(same, encoding=codec, iso_config=cfg, hex_bitmap=hexbm)
+            lost = [k for k, v in msg.items() if same.get(k) != v]
+            if lost:
+                why = f"encoding removed or changed entries of the caller's dictionary: {sorted(lost)[:4]}"
+        except Exception as ex2:  # noqa
+            why = f'encoding the same message a second time raised {type(ex2).__name__}'
     return {'obs': [o1, o2], 'violation': why, 'nontrivial': len(pds) >= 2,
             'tags': [f'carriers:{len(want)}', f'codec:{codec}']}
 
